@@ -263,7 +263,12 @@ def create_configured_connection(database: str = ":memory:") -> duckdb.DuckDBPyC
     conn = duckdb.connect(
         database, config={"storage_compatibility_version": STORAGE_COMPATIBILITY_VERSION}
     )
-    configure_duckdb_connection(conn)
+    try:
+        configure_duckdb_connection(conn)
+    except BaseException:
+        # Do not leak the connection (and, when file-backed, its open database file).
+        conn.close()
+        raise
     return conn
 
 
@@ -278,13 +283,17 @@ def configured_connection(database: str = ":memory:") -> Iterator[duckdb.DuckDBP
     if database == ":memory:" and not _use_in_memory_db():
         database = str(session_dir / "session.duckdb")
 
-    conn = create_configured_connection(database)
-    conn.execute(f"SET temp_directory = '{session_dir}'")
+    conn: Optional[duckdb.DuckDBPyConnection] = None
     try:
+        # Everything after the session directory exists runs under the finally below, so a
+        # failing configuration (invalid VTL_THREADS, decimal settings, ...) leaves nothing behind.
+        conn = create_configured_connection(database)
+        conn.execute(f"SET temp_directory = '{session_dir}'")
         yield conn
     finally:
         try:
-            conn.close()
+            if conn is not None:
+                conn.close()
         finally:
             shutil.rmtree(session_dir, ignore_errors=True)
 
